@@ -47,6 +47,10 @@ inductive Out where
   | mq (p : MqPkt)
   | mqClose
   | ended (cls : EndCls)
+  /-- instrumentation, sampled by the harness after every scripted event: the client state ... -/
+  | state (s : CState)
+  /-- ... and the live bindings of `registeredTopics`, sorted by ID -/
+  | reg (bindings : List (UInt16 × Bytes))
   deriving Repr, DecidableEq
 
 structure Cfg where
@@ -148,6 +152,8 @@ structure Gw where
   cancelledAt : Option Nat := none               -- the errgroup context was cancelled
   endCls : EndCls := .clean
   endedEmitted : Bool := false
+  sampledState : CState := .disconnected         -- last values reported by the instrumentation
+  sampledReg : List (UInt16 × Bytes) := []
   deriving Repr
 
 def Gw.init (cfg : Cfg) (idMin idMax : UInt16) : Gw :=
@@ -505,6 +511,7 @@ def freeMsgId (g : Gw) : Nat → Option UInt16
 def handleBrokerPublish (g : Gw) (dup : Bool) (qos : UInt8) (retain : Bool) (mid : UInt16)
     (topic payload : Bytes) : Gw :=
   if payload.length > Gen.MaxPayloadLength ∨ topic.length > Gen.MaxPayloadLength then g
+  else if topic.isEmpty then g
   else
     -- topic ID
     let (tid, tit, needsRegister) : UInt16 × UInt8 × Bool :=
@@ -714,8 +721,20 @@ inductive Event where
   | tick
   deriving Repr
 
-/-- one event at time `t` -/
-def step (g : Gw) (t : Nat) (ev : Event) : Gw :=
+/-- live bindings of the registry, sorted by ID -/
+def liveRegistry (g : Gw) : List (UInt16 × Bytes) :=
+  let ids := (g.registered.map (·.1)).eraseDups
+  let live := ids.filterMap fun id => (g.registered.lookup id).map fun n => (id, n)
+  (live.toArray.qsort (fun a b => a.1 < b.1)).toList
+
+/-- the harness samples state and registry after every scripted event and reports changes -/
+def sample (g : Gw) : Gw :=
+  let g := if g.st ≠ g.sampledState then ({ g with sampledState := g.st }).emit (.state g.st) else g
+  let r := g.liveRegistry
+  if r ≠ g.sampledReg then ({ g with sampledReg := r }).emit (.reg r) else g
+
+/-- one event at time `t` (without the instrumentation) -/
+def stepCore (g : Gw) (t : Nat) (ev : Event) : Gw :=
   let g := advance 100000 g t
   if !g.alive then g.finishSession
   else
@@ -732,6 +751,8 @@ def step (g : Gw) (t : Nat) (ev : Event) : Gw :=
     -- zero-delay timers armed by the handler fire at the same instant
     let g := advance 100000 g t
     g.finishSession
+
+def step (g : Gw) (t : Nat) (ev : Event) : Gw := (g.stepCore t ev).sample
 
 def run (g : Gw) (evs : List (Nat × Event)) : Gw := evs.foldl (fun g (t, e) => g.step t e) g
 
